@@ -17,6 +17,7 @@ import random
 import common
 import deck as deckmod
 import c05_tie
+import c05_kw
 import c05_sweep
 
 THEOREMS = []     # filled below, after the definitions (kept in one place)
@@ -50,7 +51,8 @@ THEOREMS = ['C05_pot_transform_compl_untouched', 'C05_pot_transform_den',
             'C05_fill_phase_located', 'C05_outside_container_nothing',
             'C05_located_enumerated', 'C05_located_unique',
             'C05_descents_distinct', 'C05_by_universe_lists',
-            'C05_inline_cells_den', 'C05_trcl_phase_den']
+            'C05_inline_cells_den', 'C05_trcl_phase_den',
+            'C05_explicit_transformation_not_empty']
 
 
 def tie_case_summary(case):
@@ -121,6 +123,41 @@ def negative_universe_witnesses():
              ['--always-inline-filling', '--always-inline-filled'])]
 
 
+def starred_fill_witnesses():
+    '''`*FILL=n` written without any transformation (the star is vacuous) in a
+    container that has a TRCL: the filler must follow the TRCL exactly as
+    with `FILL=n`.  Returns (name, abstract deck, text, options).'''
+    out = []
+    for name, base, opts in negative_universe_witnesses()[:2]:
+        import copy
+        deck = copy.deepcopy(base)
+        deck['title'] = 'c05 starred fill without transformation'
+        for c in deck['cells']:
+            c['u'] = abs(c['u'])
+        holder = [c for c in deck['cells'] if c['fill'] is not None][-1]
+        holder['trcl'] = deckmod.make_tr([0.75, 0.0, 0.25])
+        text = deckmod.render(deck)
+        target = f' fill={holder["fill"]["u"]} '
+        assert text.count(target) == 1, text
+        text = text.replace(target, ' *' + target[1:])
+        out.append((f'*fill without transformation + TRCL, {name[-7:]}',
+                    deck, text, holder['id'], opts))
+    return out
+
+
+def text_failures(deck, text, options):
+    import impl
+    conv = impl.convert(text, list(options))
+    if not conv.ok or conv.text is None:
+        return [{'point': None, 'kind': 'rejected',
+                 'why': f'rejected: {conv.exc}: {conv.msg[:120]}'}]
+    t4 = impl.T4File(conv.text)
+    pts = c05_sweep.sample_points(random.Random(6), 250)
+    pts += [[0.2, 0.1, 0.1], [0.9, 0.1, 0.3], [1.1, 0.2, 0.4]]
+    _, _, failures = c05_sweep.compare(deck, t4, pts)
+    return failures
+
+
 def negative_universe_failures(deck, options):
     '''Failures of the conversion of `deck` against the reference location on
     the same deck with |u| as universe numbers (mcnpref compares universe
@@ -147,6 +184,9 @@ def sweep(res, rng, n_decks, n_points, tag):
             deck, rng, options, n_points)
         text = deckmod.render(deck)
         n_univ = len({abs(c['u']) for c in deck['cells']})
+        for _cid, lvl, kind in deck.get('c05_both', []):
+            res.count(f'{tag}:trcl+fill-tr:{kind}:'
+                      + ('level0' if lvl == 0 else 'nested'))
         res.count(f'{tag}:decks-with-negative-universe-number',
                   1 if any(c['u'] < 0 for c in deck['cells']) else 0)
         res.seen((text, tuple(options)), nontrivial=deep > 0)
@@ -199,9 +239,17 @@ def run(res, tier, seed, proofs_ok):
         '+ 25 % malformed (missing surface / cell / universe, self-filling '
         'universe, cyclic reference, counter below existing keys); '
         'non-trivial = at least one FILL developed or an exception; '
+        'kw tie: FILL / *FILL / TRCL / *TRCL argument lists (none, TR number '
+        'present / missing / identity card / 13 entries, 3 numbers incl. all '
+        'zero and -0, 12 cosines, 12 angles, identity) with assorted number '
+        'spellings and following keywords; '
         'sweep: rendered decks with nested universes (partitions by BSP over '
         'planes, spheres and cylinders; FILL transformation by number / '
-        'inline 3 / inline 12 / starred; TRCL-only; both; shared poses; '
+        'inline 3 / inline 12 / starred; TRCL-only; shared poses; a '
+        'non-trivial TRCL together with an explicit fill transformation at '
+        'level 0 and nested (identity spelled (0 0 0), starred (0 0 0), 12 '
+        'entries, starred 12 entries, TR number of an identity card; or an '
+        'ordinary one); '
         'patently empty cells in filling universes; filler cells declared '
         'with U=-n; '
         'IMP=0 level-0 cells), 150+ points per deck; non-trivial = a point '
@@ -224,6 +272,24 @@ def run(res, tier, seed, proofs_ok):
                            'abstract': deck, 'point': fails[0]['point']},
                  'expected': 'mcnpref.Reference.locate on the deck with '
                              '|u| as universe numbers',
+                 'observed': [f['why'] for f in fails[:5]]},
+                found_input=True)
+
+    # regression corpus: a vacuous star on FILL (fixed in /repo c2e06ed:
+    # `*fill=n` without numbers yields (), the filler follows the TRCL)
+    for name, deck, text, _holder, options in starred_fill_witnesses():
+        fails = text_failures(deck, text, options)
+        res.count('corpus:starred_fill_without_transformation')
+        res.seen((text, tuple(options)), nontrivial=True)
+        if fails:
+            res.violation(
+                'impl-violation',
+                f'{name}: {len(fails)} sample points misplaced: '
+                f'{fails[0]["why"]}',
+                {'input': {'deck': text, 'options': options,
+                           'abstract': deck, 'point': fails[0]['point']},
+                 'expected': 'mcnpref.Reference.locate (a FILL without '
+                             'transformation follows the TRCL)',
                  'observed': [f['why'] for f in fails[:5]]},
                 found_input=True)
 
@@ -288,6 +354,65 @@ def run(res, tier, seed, proofs_ok):
                       + err[:300], {'theorem_or_correspondence': 'tie:fill',
                                     'error': err}, found_input=False)
 
+    # 2b. tie of parse_fill_kw / parse_trcl_kw (which tuple a keyword yields:
+    #     the precedence rule of pot_fill hangs on () vs a 12-tuple)
+    kw_cases, kw_meta = [], []
+    for i in range(400 if tier == 'quick' else 4000):
+        case = c05_kw.gen_case(rng)
+        try:
+            outcome = c05_kw.run_impl(case)
+        except Exception as exc:
+            res.violation(
+                'impl-violation',
+                f'{"fill" if case["is_fill"] else "trcl"} keyword '
+                f'{" ".join(case["tokens"])!r}: {type(exc).__name__}: {exc}',
+                {'input': {'kw_case': case},
+                 'theorem_or_correspondence': 'tie:fill_kw'},
+                found_input=True)
+            continue
+        kw_cases.append(c05_kw.coq_case(case, outcome))
+        kw_meta.append((case, outcome))
+        res.seen(kw_cases[-1], nontrivial=case['kind'] != 'none')
+        res.count(f'kw:{"fill" if case["is_fill"] else "trcl"}:{case["kind"]}'
+                  + (':starred' if case['star'] else ''))
+    kbad, kerrs = common.run_case_files('c05_kw', HEADER, 'kwcase', 'check_kw',
+                                        kw_cases, chunk=200)
+    res.obligation(f'tie:fill_kw ({len(kw_cases)} FILL / TRCL keyword '
+                   'argument lists: model parse_tr_params = implementation)',
+                   not kbad and not kerrs,
+                   f'{len(kbad)} disagreements {kerrs[:1]}')
+    for idx in kbad[:6]:
+        case, outcome = kw_meta[idx]
+        # independent reading of the keyword: what transformation was written
+        want = None
+        if case['kind'] in ('three', 'star3', 'null3', 'star_null3'):
+            want = list(case['params']) + [1., 0., 0., 0., 1., 0., 0., 0., 1.]
+        elif case['kind'] == 'num':
+            want = case['table'][int(case['params'][0])][:12]
+        elif case['truth'] is not None:
+            want = case['truth']
+        elif case['kind'] == 'none':
+            want = []
+        got = list(outcome[1]) if outcome[0] == 'ok' else None
+        wrong = (want is not None
+                 and (got is None or len(got) != len(want)
+                      or any(abs(a - b) > 1e-9 for a, b in zip(got, want))))
+        kw = ('*' if case['star'] else '') + ('fill' if case['is_fill']
+                                              else 'trcl')
+        res.violation(
+            'impl-violation' if wrong else 'correspondence',
+            f'{kw} keyword with arguments {" ".join(case["tokens"])!r} yields '
+            f'{got!r}' + (f', the transformation written is {want!r}'
+                          if wrong else ' (model differs)'),
+            {'input': {'kw_case': case}, 'observed': outcome,
+             'expected': want, 'theorem_or_correspondence': 'tie:fill_kw'},
+            found_input=wrong)
+    for err in kerrs[:2]:
+        res.violation('correspondence', 'generated case file failed: '
+                      + err[:300], {'theorem_or_correspondence': 'tie:fill_kw',
+                                    'error': err}, found_input=False)
+    tie_broken = tie_broken or bool(kbad or kerrs)
+
     # 3. sweep with the independent oracle (more of it when the tie broke)
     bad_decks = sweep(res, rng, n_decks, n_points, 'sweep')
     if tie_broken and bad_decks == 0:
@@ -338,6 +463,20 @@ def replay(path):
                 ref = mcnpref.Reference(deck)
                 print('reference chain at the recorded point:',
                       ref.locate(np.array(inp['point'], float)))
+    elif 'kw_case' in inp:
+        case = inp['kw_case']
+        case['table'] = {int(k): v for k, v in case['table'].items()}
+        outcome = c05_kw.run_impl(case)
+        print('keyword', ('*' if case['star'] else '')
+              + ('fill' if case['is_fill'] else 'trcl'), 'tokens',
+              case['tokens'], 'TR cards', case['table'])
+        print('implementation:', outcome)
+        model, _ = common.coq_eval(
+            HEADER, 'let c := ' + c05_kw.coq_case(case, outcome) + ' in '
+            '(parse_tr_params (w_fill c) (w_star c) (w_trid c) (w_params c) '
+            '(w_table c), '
+            'check_kw c)')
+        print('model (tokens as codes, 0 = 0.0, 1 = 1.0):', model)
     elif 'tie_case' in inp:
         case = case_from_summary(inp['tie_case'])
         runner = c05_tie.Runner(case)
